@@ -108,7 +108,14 @@ class CallMixin:
         newh = newh.set(a, new)
     for f in ctr.writes:
       old = h.get('f:' + f)
-      new = fresh('f_' + f, ValArr)
+      if ctr.allocates:
+        new = fresh('f_' + f, ValArr)
+        facts.append(z3.ForAll([r], z3.Implies(z3.And(r < h.alloc, *[r != m for m in mod]),
+                                               new[r] == old[r]), patterns=[new[r]]))
+      else:
+        new = old
+        for m in mod:
+          new = z3.Store(new, m, fresh('fv_' + f, Val))
       newh = newh.set('f:' + f, new)
     return st.with_heap(newh).assume(*facts)
 
@@ -169,9 +176,11 @@ class CallMixin:
     env.update(argmap)
     s2.env = env
     self.inline_depth += 1
+    saved_globals = self.module_globals
     if ctr is not None:
       self.ctr_stack.append(ctr)
       self.register_loops(fnode, ctr)
+      self.module_globals = dict(C.MODULE_GLOBALS.get(ctr.file, {}))
     try:
       if isinstance(fnode, ast.Lambda):
         rs = self.ev(fnode.body, s2)
@@ -184,6 +193,7 @@ class CallMixin:
       outs = self.exec_block(fnode.body, s2)
     finally:
       self.inline_depth -= 1
+      self.module_globals = saved_globals
       if ctr is not None:
         self.ctr_stack.pop()
     out = []
@@ -393,7 +403,7 @@ class CallMixin:
     if z3.is_expr(v):
       h = st.heap
       c = h.cls(ref(v))
-      if not self.feasible(st, z3.Not(z3.And(is_VRef(v), z3.Or([cls_in(c, n) for n in DICTLIKE])))):
+      if not self.feasible_full(st, z3.Not(z3.And(is_VRef(v), z3.Or([cls_in(c, n) for n in DICTLIKE])))):
         st2, r = self.new_dict(st, 'set', has=h.hasarr(ref(v)))
         return [Res(st2, VRef(r))]
     self.unsupp('set(...) of a non-dict-like value', node)
@@ -539,6 +549,20 @@ class CallMixin:
       self.unsupp('object.__setattr__ with dynamic name', node)
     return [Res(self.raw_store_attr(obj, lit, v, st), VNone)]
 
+  def bi_next(self, pos, kw, st, node):
+    """next(itertools.count()) on the module-level history counter (assumed contract)."""
+    trusted('next(itertools.count): returns the current count and increments it (atomic C call)')
+    it = pos[0]
+    if not (z3.is_expr(it) and it.eq(SET_COUNTER)):
+      self.unsupp('next() on an unknown iterator', node)
+    r = ref(SET_COUNTER)
+    cur = st.heap.fld(r, 'count')
+    st2 = self.raw_store_attr(SET_COUNTER, 'count', VInt(ival(cur) + 1), st)
+    return [Res(st2, cur)]
+
+  def bi_frozenset(self, pos, kw, st, node):
+    return self.bi_set(pos, kw, st, node)
+
   def bi_str(self, pos, kw, st, node):
     return [Res(st, VStr(fresh('str', I)))]
 
@@ -565,9 +589,15 @@ class CallMixin:
       v = VRef(r)
       st2.meta[('excobj', v.get_id())] = Exc(name, val=v, origin=f'{name}()@{node.lineno}')
       return [Res(st2, v)]
-    if name == '_Placeholder':
-      st2, r = st.alloc('_Placeholder')
-      st2 = self.raw_store_attr(VRef(r), 'index', pos[0], st2)
+    if name in DATACLASSES:
+      fields = DATACLASSES[name]
+      vals = dict(zip(fields, pos))
+      vals.update(kw)
+      if set(vals) != set(fields):
+        self.unsupp(f'{name}(...) with fields {sorted(vals)}', node)
+      st2, r = st.alloc(name)
+      for f in fields:
+        st2 = self.raw_store_attr(VRef(r), f, vals[f], st2)
       return [Res(st2, VRef(r))]
     ctr = C.REGISTRY.get(f'new:{name}')
     if ctr is not None:
@@ -683,7 +713,11 @@ class CallMixin:
     dflt = pos[1] if len(pos) > 1 else VNone
     def go(s):
       r = ref(recv)
-      return [Res(s, z3.If(s.heap.has(r, key), s.heap.dget(r, key), self.need_val(dflt, node)))]
+      d = dflt
+      if isinstance(d, TupleImm):
+        s, tr = self.new_list(s, d.items, 'tuple')      # materialise the tuple default
+        d = VRef(tr)
+      return [Res(s, z3.If(s.heap.has(r, key), s.heap.dget(r, key), self.need_val(d, node)))]
     return self.class_fork(recv, st, [(('dict',), go)], node, '.get()')
 
   def me_pop(self, recv, pos, kw, st, node):
@@ -704,6 +738,23 @@ class CallMixin:
           out.append(self.exc_res(s2, 'KeyError', origin=f'pop@{node.lineno}'))
       return out
     return self.class_fork(recv, st, [(('dict',), go)], node, '.pop()')
+
+  def me_setdefault(self, recv, pos, kw, st, node):
+    trusted('dict.setdefault')
+    def go(s):
+      key, dflt = pos[0], self.need_val(pos[1] if len(pos) > 1 else VNone, node)
+      r = ref(recv)
+      out = []
+      for s2, present in self.fork(s, s.heap.has(r, key)):
+        if present:
+          out.append(Res(s2, s2.heap.dget(r, key)))
+        else:
+          h = s2.heap
+          h = h.set('dhas', z3.Store(h.get('dhas'), r, z3.Store(h.hasarr(r), key, True)))
+          h = h.set('dval', z3.Store(h.get('dval'), r, z3.Store(h.valarr(r), key, dflt)))
+          out.append(Res(s2.with_heap(h), dflt))
+      return out
+    return self.class_fork(recv, st, [(('dict',), go)], node, '.setdefault()')
 
   def me_append(self, recv, pos, kw, st, node):
     trusted('list.append')
@@ -748,7 +799,7 @@ class CallMixin:
           has = z3.Store(has, it, True)
         return [Res(s.with_heap(h.set('dhas', z3.Store(h.get('dhas'), r, has))), VNone)]
       oc = h.cls(ref(other))
-      if self.feasible(s, z3.Not(z3.And(is_VRef(other), z3.Or([cls_in(oc, n) for n in DICTLIKE])))):
+      if self.feasible_full(s, z3.Not(z3.And(is_VRef(other), z3.Or([cls_in(oc, n) for n in DICTLIKE])))):
         self.unsupp('set.update with a non-set argument', node)
       new = z3.Lambda([k], z3.Or(h.hasarr(r)[k], h.hasarr(ref(other))[k]))
       return [Res(s.with_heap(h.set('dhas', z3.Store(h.get('dhas'), r, new))), VNone)]
@@ -757,7 +808,7 @@ class CallMixin:
       h = s.heap
       k = z3.Const('up_k', Val)
       ro = ref(other)
-      if self.feasible(s, z3.Not(z3.And(is_VRef(other), cls_in(h.cls(ro), 'dict')))):
+      if self.feasible_full(s, z3.Not(z3.And(is_VRef(other), cls_in(h.cls(ro), 'dict')))):
         self.unsupp('dict.update with a non-dict argument', node)
       nh = z3.Lambda([k], z3.Or(h.hasarr(r)[k], h.hasarr(ro)[k]))
       nv = z3.Lambda([k], z3.If(h.hasarr(ro)[k], h.valarr(ro)[k], h.valarr(r)[k]))
@@ -819,6 +870,14 @@ class CallMixin:
   # ---------------------------------------------------------------- with
   def exec_with(self, cm, optional_vars, body, st, node):
     self.unsupp('with statement (no context-manager model)', node)
+
+
+# classes whose construction is "allocate and set these fields" (dataclasses / trivial __init__)
+DATACLASSES = {
+    '_Placeholder': ['index'],
+    'HistoryEntry': ['sequence_id', 'param_name', 'kind', 'new_value', 'location'],
+    'Location': ['filename', 'line_number', 'function_name'],
+}
 
 
 def _ancestors(name):
